@@ -8,7 +8,11 @@ Inductive case :=
 | CookieCase (secret addr params cookie : list byte)
 | ParamsCase (h : hello) (params : list byte)
 | VerifyCase (s a p s2 a2 p2 presented : list byte) (same accepted : bool)
-| LoopCase (secret drawn addr : list byte) (hs : list hello) (rs : list resp).
+| LoopCase (secret drawn addr : list byte) (hs : list hello) (rs : list resp)
+(* a server connection bound to one UDP address received, from the same or from another address, the hello
+   carrying the cookie that had been issued to the bound address: got_cookie = the cookie was obtained;
+   n / first / keyops = datagrams sent in answer, type of the first, private-key operations *)
+| ForeignCase (got_cookie same_addr : bool) (n : nat) (first : N) (keyops : nat).
 
 Definition HVR_T : N := 5635.   (* record type 22, handshake type 3 *)
 
@@ -39,6 +43,11 @@ Definition code (c : case) : N :=
   | ParamsCase h p => if bytes_eqb (marshal_for_cookie h) p then 0%N else 4%N
   | VerifyCase s a p s2 a2 p2 pres same ok =>
       if ok && negb same then 2%N else if negb ok && same then 3%N else 0%N
+  | ForeignCase got same n first keyops =>
+      if negb got then 3%N
+      else if same then (if Nat.eqb n 0 || N.eqb first HVR_T then 3%N else 0%N)   (* the valid cookie from the right address is accepted *)
+      else if negb (Nat.eqb n 0) || negb (Nat.eqb keyops 0) then 2%N               (* anything from another address is ignored *)
+      else 0%N
   | LoopCase secret drawn addr hs rs =>
       (* an unconfigured (empty) secret is the 32 bytes the connection drew from Config.Rand,
          which the harness supplies and therefore knows *)
